@@ -251,3 +251,71 @@ def lexer_specs(seed=0):
     S.append(LexSpec("uns_nongreedy", None, [("re", "a+?")], "", "unsupported"))
     S.append(LexSpec("uns_named", None, [("re", "(?P<n>a)")], "", "unsupported"))
     return S
+
+
+# ------------------------------------------------------------------------------------------------
+# seeded random regexes / terminal sets (VERIF_SEED)
+# ------------------------------------------------------------------------------------------------
+
+_ATOMS = ["a", "b", "c", "x", "0", "1", "é", "λ", "日", r"\.", r"\+", r"\(", "-", "_", " ", ",",
+          "[a-c]", "[b-y]", "[^a]", "[0-9]", "[a-z0-9_]", r"\d", r"\w", r"\s", r"\p{Greek}", r"\p{Lu}", ".", "[é-ü]", "[^\\n]", "[x-z&&[^y]]"]
+
+
+def random_regex(rnd, depth=2):
+    if depth == 0 or rnd.random() < 0.25:
+        return rnd.choice(_ATOMS)
+    k = rnd.random()
+    if k < 0.35:
+        return "".join(random_regex(rnd, depth - 1) for _ in range(rnd.randint(2, 3)))
+    if k < 0.55:
+        return "(" + "|".join(random_regex(rnd, depth - 1) for _ in range(rnd.randint(2, 3))) + ")"
+    if k < 0.9:
+        inner = random_regex(rnd, depth - 1)
+        if (len(inner) > 1 and not (inner.startswith("[") and inner.endswith("]") and inner.count("[") == 1) and not (inner.startswith("\\") and len(inner) == 2)) \
+                or inner[-1] in "*+?}":
+            inner = "(" + inner + ")"
+        op = rnd.choice(["*", "+", "?", "{2}", "{2,}", "{1,3}", "{0,2}", "{3,}"])
+        return inner + op
+    return "(?i)" + random_regex(rnd, depth - 1)
+
+
+def random_specs(seed, count):
+    """Random terminal sets: 2-4 regexes and 0-2 literals, with or without a match block of 1-3 rungs."""
+    rnd = random.Random(9000 + seed)
+    out = []
+    lit_pool = ["a", "ab", "if", "+", "++", "é", "0", "xx", "..", "(", "λ", "a1"]
+    for i in range(count):
+        res = []
+        while len(res) < rnd.randint(2, 4):
+            r = random_regex(rnd, rnd.randint(1, 2))
+            if r not in res and r != " ":
+                res.append(r)
+        lits = rnd.sample(lit_pool, rnd.randint(0, 2))
+        terms_ = [("re", r) for r in res] + [("lit", l) for l in lits]
+        if rnd.random() < 0.4:
+            out.append(LexSpec("rnd%d" % i, None, terms_, "seeded random, no match block"))
+            continue
+        rnd.shuffle(terms_)
+        nr = rnd.randint(1, 3)
+        rungs = [[] for _ in range(nr)]
+        used = []
+        for j, t in enumerate(terms_):
+            tgt = None
+            if rnd.random() < 0.3:
+                tgt = ("id", "T%d" % j)
+            elif t[0] == "re" and rnd.random() < 0.15:
+                tgt = "skip"
+            rungs[rnd.randrange(nr)].append((t[0], t[1], tgt))
+            if tgt is None:
+                used.append((t[0], t[1]))
+            elif tgt != "skip":
+                used.append(("id", tgt[1]))
+        rungs = [r for r in rungs if r]
+        if rnd.random() < 0.5:
+            rungs[rnd.randrange(len(rungs))].append(("_",))
+            used.append(("lit", ";"))
+        if not used:
+            used.append(("lit", ";"))
+            rungs[-1].append(("_",))
+        out.append(LexSpec("rnd%d" % i, rungs, used, "seeded random match block"))
+    return out
